@@ -17,6 +17,7 @@ type Clause struct {
 	Text  string
 	E     *Expr
 	Loop  int
+	Derived bool // ensures only: proved once from the requires and the other (non-derived) ensures, not against the body
 	File  string
 	Line  int
 }
@@ -448,6 +449,10 @@ func parseClause(kind, rest, where string) (*Clause, error) {
 	if m := propsRe.FindStringSubmatch(rest); m != nil {
 		cl.Props = splitProps(m[1])
 		rest = rest[len(m[0]):]
+	}
+	if kind == "ensures" && strings.HasPrefix(rest, "derived ") {
+		cl.Derived = true
+		rest = strings.TrimSpace(strings.TrimPrefix(rest, "derived "))
 	}
 	cl.Text = rest
 	e, err := ParseExpr(rest)
